@@ -76,6 +76,7 @@ func signerOf(typ string) string {
 // buildSubject realises the subject event of a record: the context room and the bytes "as received".
 func buildSubject(ver, typ string, fs []fault) (*roomCtx, []byte, error) {
 	room := roomFor(ver, roomOpts{})
+	fs = room.resolveShapes(fs)
 	// a room ID fault that is a string: the whole room has that ID, if the standard events still parse
 	for _, f := range fs {
 		if f.Path == "top/room_id" && !room.domainless {
@@ -156,6 +157,34 @@ func buildSubject(ver, typ string, fs []fault) (*roomCtx, []byte, error) {
 		}
 	}
 	return room, raw, nil
+}
+
+// resolveShapes realises the room-ID classes that depend on the room itself (Lifecycle.tla, ShapeClasses): the ID
+// that the domain-less family of room versions derives for this very room - "!" followed by the create event's ID
+// without its sigil - bare and followed by a domain. The faults are returned with a literal class ("v:<string>"):
+// finding keys are made from the caller's abstract classes.
+func (c *roomCtx) resolveShapes(fs []fault) []fault {
+	var out []fault
+	for i, f := range fs {
+		lit := ""
+		switch f.Cls {
+		case "opaque_create":
+			lit = "!" + strings.TrimPrefix(c.ids["create"], "$")
+		case "opaque_create_domain":
+			lit = "!" + strings.TrimPrefix(c.ids["create"], "$") + ":hs1"
+		}
+		if lit == "" || f.Kind != "room" {
+			continue
+		}
+		if out == nil {
+			out = append([]fault(nil), fs...)
+		}
+		out[i].Cls = "v:" + lit
+	}
+	if out == nil {
+		return fs
+	}
+	return out
 }
 
 // respell re-encodes a JSON document in a valid but unusual spelling: the values do not change.
@@ -723,14 +752,25 @@ func rawInput(r *rec) []byte {
 	case "headers":
 		return []byte(headerLines(r.C1))
 	case "event":
-		_, raw, err := buildSubject(r.Ver, r.P2, []fault{{r.P1, r.K1, r.C1}})
-		if err != nil {
-			fatalf("%v", err)
-		}
+		raw, _ := rawEventInput(r)
 		return raw
 	}
 	fatalf("unknown raw input kind %q", r.Type)
 	return nil
+}
+
+// rawEventInput: the event JSON of a raw-family record and the room it belongs to (for a create event that parses:
+// the room built around it).
+func rawEventInput(r *rec) ([]byte, *roomCtx) {
+	var fs []fault
+	if f := (fault{r.P1, r.K1, r.C1}); !f.none() {
+		fs = append(fs, f)
+	}
+	room, raw, err := buildSubject(r.Ver, r.P2, fs)
+	if err != nil {
+		fatalf("%v", err)
+	}
+	return raw, room
 }
 
 func execRaw(r *rec) hx.Result {
@@ -756,6 +796,14 @@ func execRaw(r *rec) hx.Result {
 			s.raw = in
 		}
 		s.rawOp(op, r.Ver, in)
+		// a create event: also the body in which it REPLACES the create event of the room (next to it, the body has two
+		// events for one state key and is refused early), every other event belonging to the room it creates
+		if r.Type == "event" && strings.HasPrefix(op, "Body:") && r.P2 == "create" && len(s.panics) == 0 {
+			_, room := rawEventInput(r)
+			in = wrapReplacing(op, room, r.P2, data)
+			s.raw = in
+			s.rawOp(op, r.Ver, in)
+		}
 	}
 	// canonical class: a crash that the well-formed event shows under the same operation is keyed `wellformed`
 	if r.Type == "event" && len(s.panics) > 0 && r.P1 != "none" {
@@ -769,6 +817,10 @@ func execRaw(r *rec) hx.Result {
 				in = wrapInBody(op, r.Ver, data0)
 			}
 			s0.rawOp(op, r.Ver, in)
+			if strings.HasPrefix(op, "Body:") && r.P2 == "create" {
+				_, room0 := rawEventInput(&r0)
+				s0.rawOp(op, r.Ver, wrapReplacing(op, room0, r.P2, data0))
+			}
 		}
 		for i := range s.panics {
 			for _, f0 := range s0.panics {
@@ -809,10 +861,62 @@ func wrapInBody(op, ver string, ev []byte) []byte {
 	return nil
 }
 
+// wrapReplacing puts an event JSON into the response body that the Body:* operation decodes, in place of the event
+// of the room state that a subject of its type stands in for. A create event that parses has had the room built
+// around it (every other event carries its room ID and cites it); any other subject sits on top of the room, so the
+// event it replaces stays in the auth chain.
+func wrapReplacing(op string, c *roomCtx, typ string, ev []byte) []byte {
+	rep := replaces(typ)
+	e := json.RawMessage(ev)
+	var state, chain []interface{}
+	for _, n := range stateNames {
+		if n == rep {
+			state = append(state, e)
+		} else {
+			state = append(state, json.RawMessage(c.raw[n]))
+		}
+	}
+	for _, n := range c.chain() {
+		if n == rep && typ == "create" {
+			chain = append(chain, e)
+		} else {
+			chain = append(chain, json.RawMessage(c.raw[n]))
+		}
+	}
+	if typ != "create" {
+		chain = append(chain, e)
+	}
+	switch op {
+	case "Body:CheckStateResponse":
+		return marshalTree(tree{"pdus": state, "auth_chain": chain})
+	case "Body:SendJoin":
+		return marshalTree(tree{"state": state, "auth_chain": chain, "origin": "hs1", "event": json.RawMessage(c.raw["jbob"])})
+	case "Body:Transaction":
+		return marshalTree(tree{"origin": "hs1", "origin_server_ts": 1700000000000, "pdus": chain})
+	case "Body:LoadAndVerify":
+		return marshalTree(chain)
+	case "Body:Backfill":
+		return marshalTree(tree{"origin": "hs1", "origin_server_ts": 1700000000000, "pdus": append(append([]interface{}{}, chain...), json.RawMessage(c.raw["msg"]))})
+	}
+	fatalf("cannot wrap an event for %q", op)
+	return nil
+}
+
 // ---------------------------------------------------------------- join family (PerformJoin)
 
 func execJoin(r *rec) hx.Result {
 	room := roomFor(r.Ver, roomOpts{})
+	// "room:<path>=<class>": the room that the answers describe is built around a create event with that fault (when
+	// the create event does not parse, it stands in for the create event of the standard room)
+	var createOverride []byte
+	if strings.HasPrefix(r.C2, "room:") {
+		parts := strings.SplitN(r.C2[5:], "=", 2)
+		r2, raw, err := buildSubject(r.Ver, "create", []fault{{parts[0], "room", parts[1]}})
+		if err != nil {
+			return machine(err.Error())
+		}
+		room, createOverride = r2, raw
+	}
 	ca := room.sender("carol")
 	if room.pseudo {
 		ca = userID("carol")
@@ -846,15 +950,23 @@ func execJoin(r *rec) hx.Result {
 	}
 	var state, chain []interface{}
 	for _, n := range stateNames {
+		if n == "create" && createOverride != nil {
+			state = append(state, json.RawMessage(createOverride))
+			continue
+		}
 		state = append(state, json.RawMessage(room.raw[n]))
 	}
 	for _, n := range room.chain() {
+		if n == "create" && createOverride != nil {
+			chain = append(chain, json.RawMessage(createOverride))
+			continue
+		}
 		chain = append(chain, json.RawMessage(room.raw[n]))
 	}
 	sj := tree{"state": state, "auth_chain": chain, "origin": "hs1"}
 	echo := true
 	switch {
-	case r.C2 == "echo" || r.C2 == "none" || r.C2 == "":
+	case r.C2 == "echo" || r.C2 == "none" || r.C2 == "" || createOverride != nil:
 	case strings.HasPrefix(r.C2, "ev:"):
 		echo = false
 		parts := strings.SplitN(r.C2[3:], "=", 2)
@@ -881,7 +993,7 @@ func execJoin(r *rec) hx.Result {
 	if f1.none() {
 		cls = "join:send_join." + strings.TrimPrefix(r.P2, "top/") + "=" + r.C2
 		if r.P2 == "none" {
-			cls = "join:send_join." + strings.ReplaceAll(strings.TrimPrefix(r.C2, "ev:top/"), "ev:", "event.")
+			cls = "join:send_join." + strings.ReplaceAll(strings.ReplaceAll(strings.TrimPrefix(r.C2, "ev:top/"), "ev:", "event."), "room:top/", "room.")
 		}
 	}
 	s := &pipeState{class: cls, raw: data, room: room}
